@@ -1098,8 +1098,22 @@ func (s *BgpServer) getBestFromLocalCallbackLocked(peer *peer, rfList []bgp.Fami
 	}
 
 	for _, family := range peer.toGlobalFamilies(rfList) {
+		// With ADD-PATH at most send-max paths per prefix may be advertised: paths the
+		// peer has not been sent yet only go out while there is room, the others are
+		// remembered as filtered by the limit (as propagateUpdateToNeighbors does).
+		addPath := peer.isAddPathSendEnabled(family)
+		sendMax := int(peer.getAddPathSendMax(family))
+		added := make(map[string]int)
 		for _, path := range s.getPossibleBest(peer, family) {
 			if p := s.filterpath(peer, path, nil); p != nil {
+				if addPath && !p.IsWithdraw && !peer.hasPathAlreadyBeenSent(p) {
+					prefix := p.GetPrefix()
+					if int(peer.getRoutesCount(family, prefix))+added[prefix] >= sendMax {
+						peer.setPathSendMaxFiltered(p)
+						continue
+					}
+					added[prefix]++
+				}
 				pathList = append(pathList, p)
 			} else {
 				filtered = append(filtered, filteredPathForPeer(peer, path))
